@@ -70,13 +70,6 @@ IMargOK(ln, net, norm, out) ==
           /\ IF norm = 1 THEN RatVecMatches(q.p, MargOf(net, <<q.x>>))
              ELSE RatVecMatchesI(q.p, ProbMargOf(net, out, PosIn(out, q.x)))
   /\ Has(ln, "dqimarg") => ln.dqimarg = 0
-\* tensor marginals: joint distribution of the labels of tensor q.t (1-based position in net)
-TMargOK(ln, net) ==
-  /\ Has(ln, "tmarg") =>
-       \A k \in DOMAIN ln.tmarg :
-          LET q == ln.tmarg[k] IN
-          q.exc = "" /\ ~q.off /\ RatVecMatches(q.p, MargOf(net, net[q.t].inds))
-  /\ Has(ln, "dqtmarg") => ln.dqtmarg = 0
 \* final messages (1-norm dense / hyper): proportional to the contraction of everything behind the sender
 FMsgOK(ln, net, name, E) ==
   Has(ln, "fmsg") =>
@@ -110,7 +103,10 @@ OnIter(ln, s) ==
       lvl == IF s.rec.opts.damped THEN s.lvl ELSE StepLevels(s.G, s.lvl)
   IN << << <<"Returns", ln.exc = "">>,
            <<"Wave", ln.exc = "" /\ ~s.rec.opts.damped => ExactByLevel(s.G, lvl) \subseteq ex>>,
-           <<"Stable", ln.exc = "" => StableOK(s, ex)>> >>,
+           <<"Stable", ln.exc = "" => StableOK(s, ex)>>,
+           \* S->C replays carry the model's prediction for the imposed schedule: generic data makes the
+           \* observed exact set equal to it; falling short of it is a drift of the model, not a violation
+           <<"NOTE:ModelDrift", (ln.exc = "" /\ Has(ln, "model")) => SetOfPairs(ln.model.exact) \subseteq ex>> >>,
         [s EXCEPT !.lvl = lvl, !.prevEx = ex, !.n = s.n + 1, !.ok = s.ok /\ ln.exc = ""] >>
 
 OnEnd(ln, s) ==
@@ -129,9 +125,16 @@ OnEnd(ln, s) ==
                              ln.iterations <= IterBound(s.G, L0Of(r))>>,
            <<"ValueExact", ln.exc = "" => ValueOK(ln, net, r.norm, out)>>,
            <<"IndexMarginalExact", ln.exc = "" => IMargOK(ln, net, r.norm, out)>>,
-           <<"TensorMarginalExact", ln.exc = "" => TMargOK(ln, net)>>,
+           <<"TensorMarginalExact", ln.exc = "" => (Has(ln, "dqtmarg") => ln.dqtmarg = 0)>>,
            <<"MessagesExact", ln.exc = "" => FMsgOK(ln, net, name, s.G.E)>> >>,
-        NoState >>
+        [s EXCEPT !.prevEx = ex] >>
+
+\* one tensor marginal read from the converged messages (records following the end record)
+OnTMarg(ln, s) ==
+  << << <<"Returns", ln.exc = "">>,
+        <<"TensorMarginalExact", (ln.exc = "" /\ Has(ln, "p")) =>
+              (~ln.off /\ RatVecMatches(ln.p, MargOf(s.rec.net, s.rec.net[ln.t].inds)))>> >>,
+     s >>
 
 \* functional entry points: contract_*bp
 OnEntry(ln) ==
@@ -188,6 +191,8 @@ Step(ln, s) ==
                            ELSE << << <<"TraceShape", s.tid = ln.tid>> >>, s >>
     [] ln.ev = "end"    -> IF s.tid = ln.tid /\ s.ok THEN OnEnd(ln, s)
                            ELSE << << <<"TraceShape", s.tid = ln.tid>> >>, NoState >>
+    [] ln.ev = "tmarg"  -> IF s.tid = ln.tid /\ s.ok /\ HasNet(s.rec) THEN OnTMarg(ln, s)
+                           ELSE << << <<"TraceShape", s.tid = ln.tid>> >>, s >>
     [] ln.ev = "entry"  -> OnEntry(ln)
     [] ln.ev = "gauge"  -> OnGauge(ln)
     [] ln.ev = "sample" -> OnSample(ln)
